@@ -2,6 +2,7 @@ package variablesvalidation
 
 import (
 	"bytes"
+	"errors"
 	"fmt"
 	"math"
 
@@ -107,6 +108,10 @@ func (v *VariablesValidator) validate(operation, definition *ast.Document, varia
 	v.visitor.operation = operation
 	v.visitor.variables, v.visitor.err = astjson.ParseBytes(variables)
 	if v.visitor.err != nil {
+		if v.visitor.opts.DisableExposingVariablesContent {
+			// the message of the parser quotes the part of the variables it could not parse
+			return errors.New("variables are not valid JSON")
+		}
 		return v.visitor.err
 	}
 	report := &operationreport.Report{}
